@@ -152,7 +152,8 @@ pub fn run(kind: &str, seed: u64, args: &BTreeMap<String, String>, out: &mut dyn
                             continue;
                         }
                         let line = json!({"text_hex": hex(&st.bytes), "docs": st.docs.iter().map(|d| d.to_tagged()).collect::<Vec<_>>(),
-                            "features": st.features, "line_break": st.line_break.name()});
+                            "features": st.features, "line_break": st.line_break.name(),
+                            "trigger": st.trigger, "clean": st.clean});
                         writeln!(out, "{line}").map_err(|e| e.to_string())?;
                         emitted += 1;
                     }
